@@ -11,13 +11,14 @@ Init0 == [run |-> 0, skip |-> FALSE, errs |-> <<>>,
           up |-> FALSE]          \* a successful CONNACK has been processed on the current connection
 
 NewOp == [life |-> 1, txLife |-> 0, txConn |-> 0, pid |-> 0, hash |-> 0, pubrec |-> FALSE,
-          relConn |-> 0, recConn |-> 0, credit |-> 0, done |-> FALSE]
+          relConn |-> 0, recConn |-> 0, credit |-> 0, done |-> FALSE, doneNow |-> FALSE]
 
 OnPublish(m, e) ==
     LET o == IF Has(m.ops, e.op) THEN m.ops[e.op] ELSE NewOp
         upd == [o EXCEPT !.txLife = @ + 1, !.txConn = @ + 1, !.pid = e.pid, !.hash = e.hash]
         ok == [m EXCEPT !.ops = Put(@, e.op, upd), !.owner = Put(@, e.pid, e.op)]
-    IN IF o.done THEN Breach(m, e, "tx-after-complete")
+    IN IF o.done /\ ~o.doneNow THEN Breach(m, e, "tx-after-complete")
+       ELSE IF o.done THEN m
        ELSE IF o.pubrec THEN Breach(m, e, "publish-after-pubrec")
        ELSE IF o.txConn >= 1 THEN Breach(m, e, "retx-same-connection")
        ELSE IF o.txLife = 0 THEN
@@ -32,7 +33,8 @@ OnPubrel(m, e) ==
     IF ~Has(m.owner, e.pid) THEN Breach(m, e, "pubrel-id")
     ELSE LET op == m.owner[e.pid]
              o == m.ops[op]
-         IN IF o.done THEN Breach(m, e, "tx-after-complete")
+         IN IF o.done /\ ~o.doneNow THEN Breach(m, e, "tx-after-complete")
+            ELSE IF o.done THEN m
             ELSE IF ~o.pubrec THEN Breach(m, e, "pubrel-id")
             ELSE IF o.relConn + 1 > o.recConn + o.credit THEN Breach(m, e, "pubrel-unprompted")
             ELSE [m EXCEPT !.ops[op].relConn = @ + 1]
@@ -48,10 +50,13 @@ OnConnack(m, e) ==
                                                 ELSE [o EXCEPT !.life = @ + 1, !.txLife = 0, !.txConn = 0, !.pid = 0, !.pubrec = FALSE,
                                                                !.relConn = 0, !.recConn = 0, !.credit = 0])]
 
-Apply(m, e) ==
-    IF e.ev = "Cfg" THEN [Init0 EXCEPT !.run = e.run, !.errs = m.errs]
-    ELSE IF m.skip THEN m
-    ELSE CASE e.ev = "Tx" /\ e.partial = 0 /\ e.type = "PUBLISH" /\ e.qos > 0 /\ e.op # 0 -> OnPublish(m, e)
+Apply(m0, e) ==
+    IF e.ev = "Cfg" THEN [Init0 EXCEPT !.run = e.run, !.errs = m0.errs]
+    ELSE IF m0.skip THEN m0
+    \* the events one entry-point call produces are recorded completions first, then packets, whatever their real order inside
+    \* the call - so "transmitted after it completed" is only judged across calls (doneNow: completed by the current call)
+    ELSE LET m == IF Follower(e) THEN m0 ELSE [m0 EXCEPT !.ops = MapAll(@, LAMBDA o : [o EXCEPT !.doneNow = FALSE])] IN
+         CASE e.ev = "Tx" /\ e.partial = 0 /\ e.type = "PUBLISH" /\ e.qos > 0 /\ e.op # 0 -> OnPublish(m, e)
            [] e.ev = "Tx" /\ e.partial = 0 /\ e.type = "PUBREL" -> OnPubrel(m, e)
            [] e.ev = "Rx" /\ e.type = "PUBREC" /\ e.result = "ok" /\ e.rc < 128 /\ Has(m.owner, e.pid) ->
                   [m EXCEPT !.ops[m.owner[e.pid]].pubrec = TRUE, !.ops[m.owner[e.pid]].recConn = @ + 1]
@@ -59,7 +64,7 @@ Apply(m, e) ==
            [] e.ev \in {"Open", "Close"} ->
                   [m EXCEPT !.up = FALSE, !.sp = FALSE,
                             !.ops = MapAll(@, LAMBDA o : [o EXCEPT !.txConn = 0, !.relConn = 0, !.recConn = 0, !.credit = 0])]
-           [] e.ev = "Complete" /\ Has(m.ops, e.op) -> [m EXCEPT !.ops[e.op].done = TRUE]
+           [] e.ev = "Complete" /\ Has(m.ops, e.op) -> [m EXCEPT !.ops[e.op].done = TRUE, !.ops[e.op].doneNow = TRUE]
            [] e.ev = "Reset" -> [m EXCEPT !.ops = MapAll(@, LAMBDA o : [o EXCEPT !.done = TRUE]), !.owner = EmptyMap, !.up = FALSE]
            [] e.ev = "Quiesce" /\ e.state = "Connected" /\ e.responsive = 1 ->
                   IF \E k \in DOMAIN m.ops : m.ops[k].pubrec /\ ~m.ops[k].done /\ m.ops[k].relConn = 0
